@@ -33,7 +33,8 @@ Init ==
         /\ V = Construct(d.prog, d.root, K)
         /\ mod \in ModsOf(d)
         /\ phase = "pack"
-        /\ p = [PInit0(d.root, V, <<>>) EXCEPT !.explicit = {K[j].n : j \in 1..Len(K)} \cap DescNames(d.prog, d.root), !.nexp = TRUE]
+        /\ p = [PInit0(d.root, V, <<>>) EXCEPT !.explicit = {K[j].n : j \in 1..Len(K)} \cap DescNames(d.prog, d.root), !.nexp = TRUE,
+                                              !.knames = {K[j].n : j \in 1..Len(K)}]
         /\ m = NoMach /\ p2 = NoMach
 
 V2 == SetVal(V, mod.n, mod.v)
@@ -47,7 +48,8 @@ StepUnpack == /\ phase = "unpack" /\ RunningU(m) /\ m' = StepU(dp, p.out, m)
               /\ UNCHANGED <<di, dd, dp, K, V, mod, phase, p, p2>>
 StartPack2 == /\ phase = "unpack" /\ ~RunningU(m) /\ mod # NoMod
               /\ phase' = "pack2"
-              /\ p2' = [PInit0(dd.root, V2, <<>>) EXCEPT !.explicit = p.explicit \cup ({mod.n} \cap DescNames(dd.prog, dd.root)), !.nexp = TRUE]
+              /\ p2' = [PInit0(dd.root, V2, <<>>) EXCEPT !.explicit = p.explicit \cup ({mod.n} \cap DescNames(dd.prog, dd.root)), !.nexp = TRUE,
+                                                   !.knames = {K[j].n : j \in 1..Len(K)} \cup {mod.n}]
               /\ UNCHANGED <<di, dd, dp, K, V, mod, p, m>>
 StepPack2  == /\ phase = "pack2" /\ RunningP(p2) /\ p2' = StepP(dp, p2)
               /\ UNCHANGED <<di, dd, dp, K, V, mod, phase, p, m>>
